@@ -49,7 +49,11 @@ def main():
         for ax in th["assumptions"]:
             if ax not in C.ALLOWED_AXIOMS and ax.split(".")[-1] not in C.ALLOWED_AXIOMS:
                 bad_ax.append(f"{th['name']}: {ax}")
-    proof_ok = build_ok and rep["ok"] and not aud and not bad_ax and not tie_broken
+    chk = None
+    if tier == "thorough" and build_ok and rep["ok"] and os.environ.get("VERIF_NO_COQCHK") != "1":
+        chk = C.coqchk(prop)
+    chk_bad = bool(chk and chk["status"] == "failed")
+    proof_ok = build_ok and rep["ok"] and not aud and not bad_ax and not tie_broken and not chk_bad
     proof_msg = ""
     if not proof_ok:
         if tie_broken:
@@ -60,6 +64,8 @@ def main():
             proof_msg = "Props file no longer checks: " + rep["log"][-1500:]
         elif aud:
             proof_msg = "audit: " + ", ".join(aud)
+        elif chk_bad:
+            proof_msg = "coqchk rejected the compiled theories: " + chk["log"][-1500:]
         else:
             proof_msg = "unexpected axioms: " + ", ".join(bad_ax)
 
@@ -106,6 +112,7 @@ def main():
         "theorems": rep["theorems"],
         "theorems_declared": rep.get("declared", []),
         "audit": aud,
+        "coqchk": ({"status": chk["status"], "axioms": chk["axioms"], "wall_s": chk["wall_s"]} if chk else "thorough tier only"),
         "proof_ok": proof_ok,
         "known_findings_hit": res.known,
     }
